@@ -24,4 +24,12 @@ let init () =
                     z_out (into_storage b (f (from_raw a (raw_new a v)))) in
                   Stdlib.String.concat "," (Stdlib.List.init count item))
          | _ -> "UNKNOWN-TYPE " ^ na ^ " " ^ nb)
+    | _ -> "BAD-ARGS");
+  register "web" (function
+    | [n] ->
+        (match row n with
+         | Some t when has_web_colors t ->
+             Stdlib.String.concat "," (Stdlib.List.map (fun c -> z_out (into_storage t c)) (web_color_values t))
+         | Some _ -> "NO-WEB-COLORS " ^ n
+         | None -> "UNKNOWN-TYPE " ^ n)
     | _ -> "BAD-ARGS")
